@@ -64,6 +64,51 @@ pub fn conv_px(t: TC, g: bool, px: &[[f32; 3]]) -> Result<Vec<[f32; 3]>, String>
     }
 }
 
+/// Grey pixels through the same conversion with OTHER primaries of the same white point: the
+/// primaries stage maps grey to grey (to a few ulps), so the result is still the curve's.
+fn conv_grey_p(t: TC, g: bool, xs: &[f32], p: CP) -> Result<Vec<[f32; 3]>, String> {
+    let px: Vec<[f32; 3]> = xs.iter().map(|&x| [x; 3]).collect();
+    let (w, h) = crate::img::shape_of(px.len());
+    if g {
+        let lin = LinearRgb::new(px, w, h).map_err(|e| format!("{e:?}"))?;
+        let rgb = guarded(|| Rgb::try_from((lin, t, p)))?.map_err(|e| format!("conversion error {e:?}"))?;
+        Ok(rgb.data().to_vec())
+    } else {
+        let rgb = Rgb::new(px, w, h, t, p).map_err(|e| format!("{e:?}"))?;
+        let lin = guarded(|| LinearRgb::try_from(rgb))?.map_err(|e| format!("conversion error {e:?}"))?;
+        Ok(lin.data().to_vec())
+    }
+}
+
+fn check_grey_other_primaries(acc: &mut Acc, t: TC, g: bool, base: u64, xs: &[f32]) {
+    let mk = |x: f32, p: CP| json!({"kind":"c03grey","tc":format!("{t:?}"),"to_gamma":g,"x":x.to_bits(),"primaries":format!("{p:?}")});
+    let budget = tc_budget(t, g);
+    for p in [CP::BT2020, CP::P3Display] {
+        acc.transitions += xs.len() as u64;
+        match conv_grey_p(t, g, xs, p) {
+            Ok(out) => {
+                for (i, &x) in xs.iter().enumerate() {
+                    let exp = if g { tc_to_gamma(t, x as f64) } else { tc_to_linear(t, x as f64) }.unwrap();
+                    for k in 0..3 {
+                        // the grey may have moved by a few ulps in the primaries stage: 1e-6 of slack
+                        let e = (out[i][k] as f64 - exp).abs();
+                        if !(e < budget + 1e-6) {
+                            acc.violation(base + i as u64, format!("curve-mismatch tc={t:?} dir={} (grey, primaries {p:?})", dir_name(g)), format!("grey x={x:e} (bits {:#x}) with primaries {p:?} -> component {k} = {:e}, definition gives {exp:.9e}: error {e:.3e} >= {budget:e}", x.to_bits(), out[i][k]), mk(x, p));
+                            return;
+                        }
+                    }
+                }
+            }
+            Err(e) => {
+                acc.violation(base, format!("curve-failed tc={t:?} dir={} {}", dir_name(g), panic_site(&e)), e, mk(xs[0], p));
+                return;
+            }
+        }
+    }
+    acc.states += xs.len() as u64;
+    acc.bucket("greys with other D65 primaries: within budget", xs.len() as u64);
+}
+
 /// The curves are supposed to act on each component independently of the other two. The packed
 /// evaluation above puts three *neighbouring* values into one pixel; these two layouts put each
 /// value next to zeros (a dark saturated pixel) and next to two distant values.
@@ -101,6 +146,16 @@ fn independent_layouts(t: TC, g: bool, xs: &[f32]) -> Result<Vec<(f32, f32)>, (u
         let (a, b) = (out_m[pos[i]], out[i]);
         if (0..3).any(|k| a[k].to_bits() != b[k].to_bits()) {
             return Err((i, format!("the pixel with {:e} in slot {} converts to {} in an image that also holds out-of-range / special pixels, but to {} without them", xs[i], i % 3, px3s(a), px3s(b))));
+        }
+    }
+    // the value in one slot, out-of-range values in the two other slots of the SAME pixel: the curve of
+    // a component must not be chosen by what its neighbours in the pixel look like
+    let comp: [[f32; 2]; 3] = [[-0.5, 2.0], [1.5, -0.25], [-1e-3, 1.0 + 1e-3]];
+    let with_oor: Vec<[f32; 3]> = xs.iter().enumerate().map(|(i, &x)| { let c = comp[(i / 3) % 3]; let mut p = [c[0], c[1], c[0]]; p[(i + 1) % 3] = c[1]; p[i % 3] = x; p }).collect();
+    let out_o = conv_px(t, g, &with_oor).map_err(|e| (0, e))?;
+    for i in 0..n {
+        if out_o[i][i % 3].to_bits() != out[i][i % 3].to_bits() {
+            return Err((i, format!("{:e} in slot {} converts to {:e} next to out-of-range components {:?} in the same pixel, but to {:e} next to zeros", xs[i], i % 3, out_o[i][i % 3], with_oor[i], out[i][i % 3])));
         }
     }
     // three distant values per pixel
@@ -384,8 +439,34 @@ pub fn run(tier: Tier) -> Report {
         });
         rep.acc.merge(acc);
     }
+    // the same curves reached through a non-trivial primaries stage: greys of every binade (low 10
+    // mantissa bits zero) and of the threshold neighbourhoods, with BT.2020 and Display-P3 primaries
+    {
+        let mut vals: Vec<u32> = (0..=ONE_BITS >> 10).map(|i| i << 10).collect();
+        for t in thresholds() {
+            let b = t.to_bits() as i64;
+            for d in (-256i64..=256).step_by(8) {
+                let x = b + d;
+                if x >= 0 && x <= ONE_BITS as i64 {
+                    vals.push(x as u32);
+                }
+            }
+        }
+        vals.sort_unstable();
+        vals.dedup();
+        let xs: Vec<f32> = vals.iter().map(|&b| f32::from_bits(b)).collect();
+        let curves: Vec<TC> = DISTINCT.to_vec();
+        let nchunk = (xs.len() as u64 + 8191) / 8192;
+        let acc = par_chunks(curves.len() as u64 * 2 * nchunk, 1, |acc, lo, _| {
+            let (ci, c) = ((lo / nchunk) as usize, (lo % nchunk) as usize);
+            let (t, g) = (curves[ci / 2], ci % 2 == 1);
+            let sl = &xs[c * 8192..((c + 1) * 8192).min(xs.len())];
+            check_grey_other_primaries(acc, t, g, base + lo, sl);
+        });
+        rep.acc.merge(acc);
+    }
     rep.exhaustive = matches!(dom, Dom::AllF01);
-    rep.bound = format!("14 supported characteristics x 2 directions x {}; every value within 256 ulps of a branch threshold also as a uniform 19-pixel image (bit-identical outputs at all 57 positions)", dom.describe());
+    rep.bound = format!("14 supported characteristics x 2 directions x {}; every value within 256 ulps of a branch threshold also as a uniform 19-pixel image (bit-identical outputs at all 57 positions); greys of every binade through the same curves with BT.2020 and Display-P3 primaries", dom.describe());
     rep.rule = "each x is pushed through the real LinearRgb::try_from(Rgb{t,BT709}) / Rgb::try_from((LinearRgb,t,BT709)) (three values per pixel) and compared with the f64 defining formula (strict < 2.5e-4, PQ linear->gamma < 5.7e-4); aliases must be bit-identical to BT.1886, Linear bit-exact".into();
     rep.assumptions = vec![
         "xvYCC on [0,1] read as the display-referred 2.4 power; PQ scene-referred with BT.2100's own rounded constants (DESIGN §2.3)".into(),
@@ -395,6 +476,7 @@ pub fn run(tier: Tier) -> Report {
     rep.guard_bucket("alias bit-identical");
     rep.guard_bucket("linear bit-exact identity");
     rep.guard_bucket("threshold neighbourhoods: result independent of the position in the image");
+    rep.guard_bucket("greys with other D65 primaries: within budget");
     rep
 }
 
@@ -426,6 +508,13 @@ pub fn replay(case: &Value) -> (bool, String) {
     let g = case["to_gamma"].as_bool().unwrap();
     let x = f32::from_bits(case["x"].as_u64().unwrap() as u32);
     let mut acc = Acc::default();
+    if case["kind"] == "c03grey" {
+        check_grey_other_primaries(&mut acc, tc_from_name(case["tc"].as_str().unwrap()), g, 0, &[x]);
+        return match acc.viols.values().next() {
+            Some(v) => (true, format!("{} :: {}", v.key, v.detail)),
+            None => (false, "ok".into()),
+        };
+    }
     if case["kind"] == "c03pos" {
         check_positions(&mut acc, tc_from_name(case["tc"].as_str().unwrap()), g, 0, x);
         return match acc.viols.values().next() {
